@@ -483,6 +483,7 @@ class MonAEAD:
         env.shim_poll(func, cls, detail)
         if r != self.base:
             self.broken = True
+            self.ref = None  # consequences of the damage are not separate findings
             env.violation("followup", func, cls, "state_corrupted_after_call",
                           "after %s%s the same AEAD object no longer seals the fixed vector as it did "
                           "when it was created (scratch write ran into key/iv fields?)" % (func, detail),
@@ -581,8 +582,10 @@ class MonAEAD:
 
 
 class MonHP:
-    FU_PACKET = bytes([0xC3]) + pattern(63, 2)
-    FU_OFF = 18
+    # follow-up vector: a short-header apply with a 4-byte pn observes every mask bit
+    # the helper ever uses (mask[0] & 0x1f, mask[1..4])
+    FU_HEADER = bytes([0x43]) + pattern(12, 2)
+    FU_PAYLOAD = pattern(40, 3)
 
     def __init__(self, env, cipher, key):
         self.env = env
@@ -596,15 +599,14 @@ class MonHP:
         self.broken = False
         self.base = self._fu()
         if self.ref is not None and self.base[0] == "ok":
-            h, pn = self.ref.remove(self.FU_PACKET, self.FU_OFF)
-            if (self.base[1][0], self.base[1][1] & 0xFFFFFFFF) != (h, pn):
-                env.violation("differential", F_REMOVE, None, "result_mismatch",
-                              "fixed vector unprotected by a fresh HeaderProtection%s differs from the "
+            if self.base[1] != self.ref.apply(self.FU_HEADER, self.FU_PAYLOAD):
+                env.violation("differential", F_APPLY, None, "result_mismatch",
+                              "fixed vector protected by a fresh HeaderProtection%s differs from the "
                               "reference" % (self.args,), self.args)
 
     def _fu(self):
         try:
-            return ("ok", self.real.remove(self.FU_PACKET, self.FU_OFF))
+            return ("ok", self.real.apply(self.FU_HEADER, self.FU_PAYLOAD))
         except Exception as e:  # noqa
             return ("exc", _exc_name(e))
 
@@ -616,13 +618,14 @@ class MonHP:
         env.shim_poll(func, cls, detail)
         if r != self.base:
             self.broken = True
+            self.ref = None
             env.violation("followup", func, cls, "state_corrupted_after_call",
-                          "after %s%s the same HeaderProtection object no longer unprotects the fixed "
+                          "after %s%s the same HeaderProtection object no longer protects the fixed "
                           "vector as it did when it was created (scratch write ran into mask/zero "
                           "fields?)" % (func, detail), detail)
             self.base = r
         elif env.trace:
-            env.tr("follow-up fixed-vector remove: unchanged")
+            env.tr("follow-up fixed-vector apply: unchanged")
 
     def remove(self, packet, off):
         env = self.env
@@ -734,7 +737,9 @@ HP_KEYS = {b"aes-128-ecb": pattern(16, 1), b"aes-256-ecb": pattern(32, 1), b"cha
 AEAD_KEYS = {b"aes-128-gcm": pattern(16, 1), b"aes-256-gcm": pattern(32, 1),
              b"chacha20-poly1305": pattern(32, 3)}
 AEAD_IV = pattern(12, 2)
-OFF_EXTREMES = [-1, -4, -20, 2 ** 32 - 1, 2 ** 31, 65535, 2 ** 31 - 64]
+# offsets the C `int` sees as negative (PyArg "I" does not range-check); far positive
+# offsets are left out: where such a wild read lands depends on the heap layout
+OFF_EXTREMES = [-1, -4, -20, 2 ** 32 - 1]
 
 
 def remove_offsets(K, L, mode):
@@ -879,7 +884,7 @@ def h_aead(spec, env):
 AEAD_NAMES = [b"aes-128-gcm", b"aes-256-gcm", b"chacha20-poly1305", b"aes-192-gcm",
               b"", b"nope", b"aes-128-gcm-x", b"aes-128-gcm\0junk", b"AES-128-GCM", b"x" * 300]
 HP_NAMES = [b"aes-128-ecb", b"aes-256-ecb", b"chacha20", b"aes-192-ecb",
-            b"", b"nope", b"chacha20-x", b"chacha20\0junk", b"CHACHA20", b"x" * 300]
+            b"", b"nope", b"chacha20-x", b"x" * 300]
 
 
 def h_ctor(spec, env):
@@ -1510,7 +1515,7 @@ def _long(first, version, dl, sl, actual, token, rest, total):
 
 
 def recv_grammar(actual_cid, actual_for_short, quick):
-    """yields (description, datagram).  Deterministic; the same for every state
+    """yields (description, arguments for build_datagram).  Deterministic; the same for every state
     except for the connection IDs that are copied from the endpoint under test."""
     INITIAL, ZERO, HS, RETRY = 0, 1, 2, 3
     # 1. Initial packets: token length x declared rest x datagram size
@@ -1521,13 +1526,13 @@ def recv_grammar(actual_cid, actual_for_short, quick):
                 for rest in RESTS:
                     for total in TOTALS_BIG[1:] if quick else TOTALS_BIG:
                         yield (("initial", ver, dl, sl, token, rest, total),
-                               _long(0xC0 | tbits | (total & 3), ver, dl, sl, actual_cid, token, rest, total))
+                               (0xC0 | tbits | (total & 3), ver, dl, sl, actual_cid, token, rest, total))
         for dl, sl in CID_PAIRS[3:]:
             for token in (0, 1, 2):
                 for rest in RESTS:
                     for total in (1200, 1500, 4096):
                         yield (("initial", ver, dl, sl, token, rest, total),
-                               _long(0xC3 | tbits, ver, dl, sl, actual_cid, token, rest, total))
+                               (0xC3 | tbits, ver, dl, sl, actual_cid, token, rest, total))
     # 2. other long types, unknown versions, fixed bit cleared
     for ver in (V1, V2, 0, 0xDEADBEEF):
         for t in range(4):
@@ -1537,20 +1542,28 @@ def recv_grammar(actual_cid, actual_for_short, quick):
                         for total in (1200, 1501, 65535):
                             tok = 0 if (t == (INITIAL if ver != V2 else 1)) else None
                             yield (("long", ver, t, fixed, dl, sl, rest, total),
-                                   _long(0x80 | fixed | (t << 4) | 1, ver, dl, sl, actual_cid, tok, rest, total))
+                                   (0x80 | fixed | (t << 4) | 1, ver, dl, sl, actual_cid, tok, rest, total))
     # 3. every header form cut at every small length
     for ver in (V1, V2, 0, 0xDEADBEEF):
         for t in range(4):
             for dl, sl in CID_PAIRS:
-                full = _long(0xC0 | (t << 4), ver, dl, sl, actual_cid, 0 if t == 0 else None, "exact", 1200)
                 for total in range(0, 65):
-                    yield (("cut", ver, t, dl, sl, total), full[:total])
+                    yield (("cut", ver, t, dl, sl, total),
+                           (0xC0 | (t << 4), ver, dl, sl, actual_cid, 0 if t == 0 else None, "exact", 1200, total))
     # 4. short headers
     for first in (0x40, 0x43, 0x44, 0x7F, 0x5C, 0x00, 0x3F):
         for cid in (actual_for_short, pattern(8, 3)):
             for total in list(range(0, 65)) + TOTALS_BIG:
-                d = bytes([first]) + cid + pattern(max(total - 9, 0), 1)
-                yield (("short", first, cid == actual_for_short, total), d[:total])
+                yield (("short", first, cid == actual_for_short, total), (first, cid, total))
+
+
+def build_datagram(desc, args):
+    if desc[0] == "short":
+        first, cid, total = args
+        return (bytes([first]) + cid + pattern(max(total - 9, 0), 1))[:total]
+    if desc[0] == "cut":
+        return _long(*args[:8])[:args[8]]
+    return _long(*args)
 
 
 RECV_STATES = ("server_firstflight", "server_connected", "client_connected")
@@ -1595,7 +1608,7 @@ def h_lib_recv(spec, env):
             actual = conn.host_cid
             short_cid = conn.host_cid
         gen = recv_grammar(actual, short_cid, spec.get("quick", True))
-        for desc, data in gen:
+        for desc, dargs in gen:
             i += 1
             if i < lo:
                 continue
@@ -1605,6 +1618,7 @@ def h_lib_recv(spec, env):
                 continue
             if env.dry:
                 continue
+            data = build_datagram(desc, dargs)
             try:
                 if state == "server_firstflight":
                     conn = QuicConnection(configuration=sc,
